@@ -545,7 +545,7 @@ func cmdCheck(args []string) {
 		"assertions_discharged": totalDischarged,
 		"solver_queries":        totalQueries,
 		"solver_time_s":         solverTime,
-		"solvers":               "z3 4.8.12 over a pipe (incremental); cvc5 --solve-bv-as-int=sum for division kernels; unknown answers retried on cvc5 and z3 5.1",
+		"solvers":               mainZ3() + " (z3-new = z3 5.1.0, z3 = 4.8.12) over a pipe, incremental; cvc5 --solve-bv-as-int=sum for division kernels; unknown answers retried on cvc5 and on the other z3; the thorough tier re-asks assertion discharges of the other z3 (cross_solver)",
 		"stubs_used":            stubList,
 		"inconclusive":          inconclusive,
 		"must_fail_twins":       fmt.Sprintf("%d/%d failed as required", mustFailOK, mustFailN),
